@@ -110,6 +110,12 @@ def check(an: Analysis) -> None:
         if w is not None:
             ob.fail(f, s.ast, "[free slot] the call is delayed although fewer than `limit` calls began in the preceding period", CFG.show_path(w))
 
+    clocks = [c for c in f.own_nodes() if isinstance(c, ast.Call) and an.callee(f, c) == "time.monotonic"]
+    for c in clocks:
+        ob.inst(f, c, "clock reading")
+        if not any(within(c, lk) for lk in locks):
+            ob.fail(f, c, "the clock is read before the lock is held: a caller that queued on the lock works from a stale `now` - it neither purges the expired head entry nor waits long enough, and starts less than `period` after the call that was just admitted")
+
     # ------------------------------------------------------------------ C15.4 the start stamp
     ob = an.ob("C15.4", "K1", "the start stamp appended to the window is a fresh monotonic() read after the wait, on every path, before the lock is released and before the call", [F])
     if len(appends) != 1:
